@@ -169,6 +169,10 @@ def s2_s5_line_walk(ck):
         ck.req(ok_app, "S5.successor", "next", nx.where(), "yielded successor is not by_performing_move(current state, the yielded move)")
         adv = [e for e in p.effects if e[0] == "store" and e[1] == cur]
         ok_adv = len(adv) == 1 and any(is_call(x, APPLY) and x[2][1] == mv for x in walk(adv[0][2]))
+        if not adv:
+            # `self.current_game_state.clone_from(&next)`
+            cf = [e for e in p.effects if e[0] == "call" and e[1].endswith("::clone_from") and len(e[2]) == 2 and e[2][0] == cur]
+            ok_adv = len(cf) == 1 and any(is_call(x, APPLY) and x[2][1] == mv for x in walk(cf[0][2][1]))
         ck.req(ok_adv, "S5.advance", "next", nx.where(), "the iterator does not advance its current state to the successor of the yielded move")
     # the walk ends only where there is nothing more to follow: at the depth limit, at a position without an entry, or when the stored
     # move cannot be applied.  Any further reason to stop (e.g. the kind of the entry) can cut the line at the root and leave nothing
